@@ -3876,6 +3876,7 @@ func (d *cborDecDriverBytes) nextValueBytesBdReadR() {
 			d.r.skip(uint(ui))
 		}
 	case cborMajorArray:
+		d.d.depthIncr()
 		if d.bd == cborBdIndefiniteArray {
 			for {
 				d.readNextBd()
@@ -3891,7 +3892,9 @@ func (d *cborDecDriverBytes) nextValueBytesBdReadR() {
 				d.nextValueBytesBdReadR()
 			}
 		}
+		d.d.depthDecr()
 	case cborMajorMap:
+		d.d.depthIncr()
 		if d.bd == cborBdIndefiniteMap {
 			for {
 				d.readNextBd()
@@ -3911,10 +3914,13 @@ func (d *cborDecDriverBytes) nextValueBytesBdReadR() {
 				d.nextValueBytesBdReadR()
 			}
 		}
+		d.d.depthDecr()
 	case cborMajorTag:
 		d.uintBytes()
+		d.d.depthIncr()
 		d.readNextBd()
 		d.nextValueBytesBdReadR()
+		d.d.depthDecr()
 	case cborMajorSimpleOrFloat:
 		switch d.bd {
 		case cborBdNil, cborBdUndefined, cborBdFalse, cborBdTrue:
@@ -7863,6 +7869,7 @@ func (d *cborDecDriverIO) nextValueBytesBdReadR() {
 			d.r.skip(uint(ui))
 		}
 	case cborMajorArray:
+		d.d.depthIncr()
 		if d.bd == cborBdIndefiniteArray {
 			for {
 				d.readNextBd()
@@ -7878,7 +7885,9 @@ func (d *cborDecDriverIO) nextValueBytesBdReadR() {
 				d.nextValueBytesBdReadR()
 			}
 		}
+		d.d.depthDecr()
 	case cborMajorMap:
+		d.d.depthIncr()
 		if d.bd == cborBdIndefiniteMap {
 			for {
 				d.readNextBd()
@@ -7898,10 +7907,13 @@ func (d *cborDecDriverIO) nextValueBytesBdReadR() {
 				d.nextValueBytesBdReadR()
 			}
 		}
+		d.d.depthDecr()
 	case cborMajorTag:
 		d.uintBytes()
+		d.d.depthIncr()
 		d.readNextBd()
 		d.nextValueBytesBdReadR()
+		d.d.depthDecr()
 	case cborMajorSimpleOrFloat:
 		switch d.bd {
 		case cborBdNil, cborBdUndefined, cborBdFalse, cborBdTrue:
